@@ -253,6 +253,22 @@ Definition capture_extra (ds : list layer) : layer :=
 
 Definition opt_ident_ok (o : option str) : bool := match o with Some s => is_ident s | None => true end.
 
+(* the outer_context of a component_context_cache entry is a shared mutable object *)
+Definition with_outer (ci : cinst) (o : option ctxt) : cinst :=
+  {| ci_name := ci_name ci; ci_fills := ci_fills ci; ci_default := ci_default ci; ci_outer := o |}.
+(* entries whose outer Context is the object c see its current layers *)
+Definition share_outer (c : ctxt) (t : list (N * cinst)) : list (N * cinst) :=
+  map (fun kc => (fst kc, match ci_outer (snd kc) with
+                          | Some o => if N.eqb (oid o) (oid c) then with_outer (snd kc) (Some c) else snd kc
+                          | None => snd kc
+                          end)) t.
+(* ... and afterwards again the layers recorded before (every frame restores the layer list: ctx_restored) *)
+Definition restore_outer (before after : list (N * cinst)) : list (N * cinst) :=
+  map (fun kc => (fst kc, match alookup (fst kc) before with
+                          | Some ci0 => with_outer (snd kc) (ci_outer ci0)
+                          | None => snd kc
+                          end)) after.
+
 (* ---------- rendering ---------- *)
 Section MRender.
   Variable md : mode.
@@ -337,7 +353,11 @@ Section MRender.
       if N.eqb (oid c) roid then
         mbind (mrl g (with_dicts c (cpush rvars (dicts c))) body) (fun '(a, g1, c1) => MOk (a, g1, with_dicts c1 (cpop (dicts c1))))
       else if N.eqb (oid c) ruse then
-        mbind (mrl g {| oid := roid; dicts := cpush rvars rdicts |} body) (fun '(a, g1, _) => MOk (a, g1, c))
+        (* isolated mode: the current Context c is the outer_context OBJECT of some instance, in the middle of a fill;
+           slots of that instance reached from the slot's default content will use this very object again, with the
+           layers it has NOW: the cache entries holding it see the current layers while the default content renders *)
+        mbind (mrl (set_cctx g (share_outer c (g_cctx g))) {| oid := roid; dicts := cpush rvars rdicts |} body) (fun '(a, g1, _) =>
+        MOk (a, set_cctx g1 (restore_outer (g_cctx g) (g_cctx g1)), c))
       else MUnsup 2.
 
     Definition mout (e : expr) (g : gstate) (c : ctxt) : mres R :=
